@@ -107,11 +107,19 @@ class Spec:
         # Mid: own parameters (renamed / reordered), base arguments drawn from them and from concrete types
         mp = r.sample(tvs, r.choice([1, 2]))
         margs = [r.choice([("v", p) for p in mp] + [("p", "int"), E[0]]) for _ in bp]
-        self.add(MID, mp, ("c", BASE, margs), {"mine": ("v", mp[0]), "mids": ("it", ("v", mp[-1])),
-                                               "grid": nest(("v", mp[-1]), 2)})
+        midm = {"mine": ("v", mp[0]), "mids": ("it", ("v", mp[-1])), "grid": nest(("v", mp[-1]), 2)}
+        # overridden methods: the annotation of the most derived version wins; the base's own version stays what the
+        # other subclasses (Fixed, Grouped) and the base itself answer with
+        ov = lambda: r.random() < 0.7  # noqa
+        if ov():
+            midm["first"] = r.choice([("p", "str"), ("v", mp[-1]), ("it", ("p", "float"))])     # Mid overrides Base.first
+        if ov():
+            midm["raw"] = ("p", "int")                                    # un-annotated in the base, annotated here
+        self.add(MID, mp, ("c", BASE, margs), midm)
         # Leaf: depth 3, fixed or generic
         if r.random() < 0.5:
-            self.add("Leaf", [], ("c", MID, [r.choice([("p", "float"), E[1], ("p", "str")]) for _ in mp]), {"leaf": ("p", "int")})
+            self.add("Leaf", [], ("c", MID, [r.choice([("p", "float"), E[1], ("p", "str")]) for _ in mp]),
+                     dict({"leaf": ("p", "int")}, **({"mine": ("p", "bool"), "items": ("it", E[0])} if ov() else {})))
         else:
             lp = [r.choice(tvs)]
             self.add("Leaf", lp, ("c", MID, [r.choice([("v", lp[0]), ("p", "int")]) for _ in mp]), {"leaf": ("v", lp[0])})
@@ -130,7 +138,8 @@ class Spec:
         self.add("ItE0", [], ("it", E[0]), {"size": ("p", "int")})
         self.add("GoodItE0", [], ("c", "ItE0", []), {"good": ("p", "bool")})
         self.add("BoxI", [], ("c", MID, [r.choice([("p", "int"), E[1]]) for _ in mp]), {})
-        self.add("MyBoxI", [], ("c", "BoxI", []), {})
+        # an override in the middle of a three-level chain of plain subclasses: MyBoxI2 answers with MyBoxI's version
+        self.add("MyBoxI", [], ("c", "BoxI", []), {"grid": ("p", "int"), "mine": E[0]} if ov() else {})
         self.add("MyBoxI2", [], ("c", "MyBoxI", []), {"deep3": ("p", "int")})
         self.coll_methods = {"MyFirst": ("v", "M"), "MyCount": ("p", "int")}
         inst = lambda c: ("c", c, [r.choice([("p", "int"), ("p", "float"), E[0], E[1]]) for _ in self.classes[c]["params"]])  # noqa
